@@ -75,4 +75,14 @@ CLAIMS = {
         note='Decides "outside the limits => rejected" and the argument guards; does NOT decide "inside the limits => OK and usable". '
              'One known finding (RS-2^m accepts n > 2^m-1; cannot be repaired without breaking a pinned test). ' + BASE,
         technique='inter-procedural guard collection + interval reasoning + region enumeration over compared constants'),
+    'C08': dict(
+        text='Ownership analysis over the whole library: members that ever receive a library allocation are a subset of what each '
+             'destructor releases whenever non-NULL (seven destructors; matrix members need both the matrix destructor and the struct '
+             'free); element sweeps cover exactly the library-owned index ranges and never the application-owned source slots; a '
+             'typestate walk proves every local allocation is freed/handed over on every non-error exit; no use after free, double '
+             'free, or dangling member left behind by a function that frees a member.',
+        design_ref='DESIGN.md section 6 C08; rules R-OWN-FIELD, R-OWN-ELEM, R-OWN-LOCAL, R-UAF, R-DANGLING',
+        note='Decides these clauses for all paths of all API-reachable functions; exits with an error status (allocation failure) are '
+             'exempt (not protocol-conforming); leaks that need ESI arithmetic to see (the repaired D6) are a declared miss. ' + BASE,
+        technique='ownership/effect analysis: owned-vs-released field sets, loop-range rules for sweeps, typestate dataflow for locals'),
 }
